@@ -457,11 +457,11 @@ class BasicVisitor(NodeVisitor):
         return BasicLiteral(int(num_literal))
 
     def visit_int_hex_literal(self, node, visited_children):
-        hex_literal = node.text[node.text.find("H") + 1 :]
+        hex_literal = node.text[node.text.find("H") + 1 :].replace(" ", "")
         return HexLiteral(hex_literal)
 
     def visit_hex_literal(self, node, visited_children):
-        hex_literal = node.text[node.text.find("H") + 1 :]
+        hex_literal = node.text[node.text.find("H") + 1 :].replace(" ", "")
         return HexLiteral(hex_literal, is_float=True)
 
     def visit_unop_exp(self, _, visited_children) -> AbstractBasicExpression:
